@@ -14,14 +14,14 @@ HX="--param asan-use-after-return=0"
 # public observers only; a failure of the fallback as well is a real build failure.
 build_xx() { # $1 = object suffix, $2.. = extra flags
   local sfx=$1; shift
-  local CXX="-std=c++17 $SAN $* -I$REPO -I$MC -I$H"
+  local CXX="-std=c++20 $SAN $* -I$REPO -I$MC -I$H"
   if g++ -c $CXX $HX -fno-access-control $H/c15_xx.cpp -o $BUILD/h_xx$sfx.o 2> $BUILD/h_xx_full$sfx.log; then return 0; fi
   g++ -c $CXX $HX -DC15_PUBLIC_ONLY $H/c15_xx.cpp -o $BUILD/h_xx$sfx.o || { cat $BUILD/h_xx_full$sfx.log; return 1; }
   [ -n "$sfx" ] || echo "NOTE: private state names changed, key built from public observers + reference state" >> $BUILD/notes.txt
 }
 objects() { # $1 = object suffix, $2.. = extra flags for every TU that contains repository code
   local sfx=$1; shift
-  local CXX="-std=c++17 $SAN $* -I$REPO -I$MC -I$H" CC="$SAN $* -I$REPO -I$H"
+  local CXX="-std=c++20 $SAN $* -I$REPO -I$MC -I$H" CC="$SAN $* -I$REPO -I$H"
   par g++ -c $CXX $HX $H/c15_c.cpp -o $BUILD/h_c$sfx.o
   par build_xx "$sfx" $*
   par g++ -c $CXX $REPO/igris/shell/vtermxx.cpp -o $BUILD/vtermxx$sfx.o
@@ -33,7 +33,7 @@ objects ""
 objects _nd -DNDEBUG
 par gcc -c -O1 -I$REPO $REPO/igris/dprint/dprint_func_impl.c -o $BUILD/dprint.o
 par gcc -c -O1 -I$REPO $REPO/igris/dprint/dprint_stub.c -o $BUILD/dstub.o
-par g++ -std=c++17 -O2 -c -I$MC $MC/mc.cpp -o $BUILD/mc.o
+par g++ -std=c++20 -O2 -c -I$MC $MC/mc.cpp -o $BUILD/mc.o
 parwait
 for sfx in "" _nd; do
   COMMON="$BUILD/numconvert$sfx.o $BUILD/dprint.o $BUILD/dstub.o $BUILD/mc.o"
